@@ -105,6 +105,11 @@ func parserReaderUses(p *Program) ([]readerUse, *types.Var) {
 					ru.Kind = "fullread"
 				case nameIn(n, "(*bufio.Reader).ReadByte", "(*bufio.Reader).Discard") && len(cc.Args) > 0 && cc.Args[0] == x:
 					ru.Kind = "bytewise"
+				case nameIn(n, "(*bufio.Reader).ReadBytes", "(*bufio.Reader).ReadString") && len(cc.Args) > 0 && cc.Args[0] == x:
+					// reads through the delimiter and returns a copy the caller owns
+					ru.Kind = "delimread"
+				case nameIn(n, "(*bufio.Reader).UnreadByte", "(*bufio.Reader).Buffered", "(*bufio.Reader).Size") && len(cc.Args) > 0 && cc.Args[0] == x:
+					continue
 				default:
 					// handed to a function of the parser package: its parameter is the reader
 					if callee := staticCallee(cc); callee != nil && callee.Blocks != nil && fnPkgPath(callee) == pkgProto && depth < 4 {
@@ -240,6 +245,11 @@ func ruleReaderUses(c *Ctx, ridA, ridB string) {
 		case "bytewise":
 			nOne++
 			c.ok(ridA, key, pos, "byte-wise read through the parser's own buffered reader")
+		case "delimread":
+			nOne++
+			// the data is used where the error was tested (nil, or end of stream in the
+			// EOF-tolerant line reader, which R11.b inventories)
+			c.ok(ridA, key, pos, "delimited read through the parser's own buffered reader (reads up to and including the delimiter, whatever the chunking)")
 		case "fullread":
 			nFull++
 			// error must be checked: value results used only under err == nil — generic rule
@@ -274,7 +284,8 @@ func ruleReaderUses(c *Ctx, ridA, ridB string) {
 	}
 	c.count("reader-one-byte-reads", nOne)
 	c.count("reader-full-reads", nFull)
-	c.floor("reader-one-byte-reads", 3)
+	c.count("reader-uses-recognised", nOne+nFull)
+	c.floor("reader-uses-recognised", 3)
 	c.floor("reader-full-reads", 1)
 	if nEsc == 0 {
 		c.ok(ridB, "no-escape", "", fmt.Sprintf("%d uses of Parser.reader, none escapes", len(uses)))
@@ -825,20 +836,62 @@ func ruleLineReader(c *Ctx, rid string) {
 			for b := range l.Blocks {
 				for _, ins := range b.Instrs {
 					if bo, ok := ins.(*ssa.BinOp); ok && (bo.Op == token.NEQ || bo.Op == token.EQL) {
-						if cv, ok := constInt(bo.Y); ok && cv == 13 {
-							if ld, ok := bo.X.(*ssa.UnOp); ok && ld.Op == token.MUL {
-								if ia, ok := ld.X.(*ssa.IndexAddr); ok {
-									if _, one := oneByteBuffer(ia.X); one {
-										loop, crCmp = l, bo
-									}
-								}
-							}
+						if cv, ok := constInt(bo.Y); ok && cv == 13 && isJustReadByte(bo.X) {
+							loop, crCmp = l, bo
 						}
 					}
 				}
 			}
 		}
 		if loop == nil {
+			// the buffered form: ReadBytes(CR)/ReadString(CR) and exactly one more byte (the LF),
+			// or ReadBytes(LF), which consumes the whole line itself
+			if call, delim := delimitedLineRead(f); call != nil {
+				n++
+				key := fnName(f) + "/line"
+				if delim == 10 {
+					c.ok(rid, key, c.P.instrPos(call), "the line is read up to and including its LF by one delimited read")
+					continue
+				}
+				type st struct{ Reads int8 }
+				a := &Auto[st]{Fn: f, Init: st{},
+					Step: func(s st, ins ssa.Instruction, fail func(string)) []st {
+						if cl, ok := ins.(*ssa.Call); ok && cl != call {
+							nme := calleeName(cl.Common())
+							if isReadByteCall(cl) || nme == "(*bufio.Reader).Read" || nme == "(io.Reader).Read" {
+								if s.Reads < 2 {
+									s.Reads++
+								}
+							}
+							if nme == "(*bufio.Reader).Discard" {
+								if k, ok := constInt(cl.Common().Args[1]); ok && k == 1 && s.Reads < 2 {
+									s.Reads++
+								} else {
+									s.Reads = 2
+								}
+							}
+						}
+						if r, ok := ins.(*ssa.Return); ok && len(r.Results) == 2 && isNilConst(retOperand(r, 1)) {
+							eof := false
+							for _, at := range factsAt(r.Block()) {
+								if isEOFTest(at) && at.Pos {
+									eof = true
+								}
+							}
+							if !eof && s.Reads != 1 {
+								fail(fmt.Sprintf("a line is returned after %d reads beyond the CR (exactly one, the LF, must be consumed)", s.Reads))
+							}
+						}
+						return []st{s}
+					}}
+				res := a.Run()
+				if len(res.Errs) == 0 {
+					c.ok(rid, key, c.P.instrPos(call), "delimited read up to CR, then exactly one more byte is consumed on every complete-line return")
+				}
+				for i, e := range res.Errs {
+					c.bad(rid, fmt.Sprintf("%s/path#%d", key, i), c.P.instrPos(e.Ins), e.Msg, e.witness(c.P)...)
+				}
+			}
 			continue
 		}
 		n++
@@ -853,7 +906,7 @@ func ruleLineReader(c *Ctx, rid string) {
 				s.After = 1
 				if cl, ok := ins.(*ssa.Call); ok {
 					nme := calleeName(cl.Common())
-					if nme == "(io.Reader).Read" || nameIn(nme, blockingReadNames...) {
+					if nme == "(io.Reader).Read" || isReadByteCall(cl) || nme == "(*bufio.Reader).Discard" || nameIn(nme, blockingReadNames...) {
 						if s.Reads < 2 {
 							s.Reads++
 						}
@@ -1452,4 +1505,64 @@ func ruleParserStateBalanced(c *Ctx, rid string) {
 	if n == 0 {
 		c.ok(rid, "no-stepped-parser-state", "", "no function of the parser steps a field of the parser")
 	}
+}
+
+// isJustReadByte: v is the byte a single-byte read delivered — buf[0] of a one-byte buffer, the
+// result of ReadByte on a (buffered) reader, or a phi of such values (the loop variable of
+// `b, err := r.ReadByte(); for err == nil && b != cr { ...; b, err = r.ReadByte() }`).
+func isJustReadByte(v ssa.Value) bool {
+	return justReadByte(v, map[ssa.Value]bool{})
+}
+
+func justReadByte(v ssa.Value, seen map[ssa.Value]bool) bool {
+	if v == nil || seen[v] {
+		return v != nil
+	}
+	seen[v] = true
+	switch x := v.(type) {
+	case *ssa.UnOp:
+		if x.Op == token.MUL {
+			if ia, ok := x.X.(*ssa.IndexAddr); ok {
+				if _, one := oneByteBuffer(ia.X); one {
+					return true
+				}
+			}
+		}
+	case *ssa.Extract:
+		if call, ok := x.Tuple.(*ssa.Call); ok && x.Index == 0 {
+			return isReadByteCall(call)
+		}
+	case *ssa.Phi:
+		for _, e := range x.Edges {
+			if !justReadByte(e, seen) {
+				return false
+			}
+		}
+		return len(x.Edges) > 0
+	}
+	return false
+}
+
+func isReadByteCall(call *ssa.Call) bool {
+	n := calleeName(call.Common())
+	return n == "(*bufio.Reader).ReadByte" || n == "(io.ByteReader).ReadByte" || n == "(io.ByteScanner).ReadByte"
+}
+
+// delimitedLineRead: f reads a line with ReadBytes/ReadString/ReadSlice of a buffered reader up
+// to CR (13) or LF (10); returns the call and the delimiter.
+func delimitedLineRead(f *ssa.Function) (*ssa.Call, int64) {
+	var found *ssa.Call
+	var delim int64
+	allInstrs(f, func(ins ssa.Instruction) {
+		call, ok := ins.(*ssa.Call)
+		if !ok || found != nil {
+			return
+		}
+		if nameIn(calleeName(call.Common()), "(*bufio.Reader).ReadBytes", "(*bufio.Reader).ReadString", "(*bufio.Reader).ReadSlice") && len(call.Common().Args) == 2 {
+			if d, ok := constInt(call.Common().Args[1]); ok && (d == 13 || d == 10) {
+				found, delim = call, d
+			}
+		}
+	})
+	return found, delim
 }
